@@ -41,26 +41,37 @@ deriving DecidableEq, Repr
 /-- The server: its answer may depend on everything it has seen so far (including this request, last). -/
 abbrev Server := List Ev → Ans
 
-/-- Under RaiseMode.ERRORS a request raises iff the answer carries an error of severity `error`. -/
+/-- Under RaiseMode.ERRORS a request raises iff the answer carries an error of severity `error`.
+    `<lock>` and `<unlock>` are ALWAYS issued under ERRORS, whatever the manager's own raise mode. -/
 def refused (a : Ans) : Bool := a = .error
+
+/-- The manager's raise mode, which governs the body's own requests only. -/
+inductive Mode | all | errors | none
+deriving DecidableEq, Repr
+
+/-- Whether a request of the body raises, by the manager's mode (C06). -/
+def reqRaises : Mode → Ans → Bool
+  | .all, a => a != .ok
+  | .errors, a => a = .error
+  | .none, _ => false
 
 /-- Run a program; `tr` is the server-side trace so far.  Returns the new trace and the exception
     propagating out of the program, if any. -/
-def run (srv : Server) : Prog → List Ev → List Ev × Option Exc
+def run (srv : Server) (m : Mode) : Prog → List Ev → List Ev × Option Exc
   | .skip, tr => (tr, none)
   | .req n, tr =>
     let tr' := tr ++ [.req n]
-    (tr', if refused (srv tr') then some (.rpc (.req n)) else none)
+    (tr', if reqRaises m (srv tr') then some (.rpc (.req n)) else none)
   | .raise e, tr => (tr, some (.body e))
   | .seq a b, tr =>
-    match run srv a tr with
+    match run srv m a tr with
     | (tr', some x) => (tr', some x)
-    | (tr', none) => run srv b tr'
+    | (tr', none) => run srv m b tr'
   | .locked t body, tr =>
     let tr1 := tr ++ [.lock t]                              -- __enter__
     if refused (srv tr1) then (tr1, some (.rpc (.lock t)))   -- body and __exit__ do not run
     else
-      let (tr2, x) := run srv body tr1
+      let (tr2, x) := run srv m body tr1
       let tr3 := tr2 ++ [.unlock t]                          -- __exit__, always
       if refused (srv tr3) then (tr3, some (.rpc (.unlock t))) else (tr3, x)
 
